@@ -25,8 +25,25 @@ import (
 
 type c10Seg struct {
 	Text  string            `json:"text"`            // normalised transcript of the line (stdout+stderr)
-	Files map[string]string `json:"files,omitempty"` // files the line left behind: name → sha256 (or short content)
+	Files map[string]string `json:"files,omitempty"` // files the line left behind: name → size:sha256
+	Bags  map[string]string `json:"-"`               // the same files as token bags (order erased)
 	Dead  bool              `json:"dead,omitempty"`  // the process had already exited
+}
+
+// mkey: the observation with order erased (sorted white-space separated tokens): pprof has reports
+// whose line order varies from run to run on identical input (weblist; that is C08's subject).
+func (s c10Seg) mkey() string {
+	t := s
+	t.Text = c10TokenBag(s.Text)
+	t.Files = s.Bags
+	return t.key()
+}
+
+func c10TokenBag(text string) string {
+	f := strings.Fields(text)
+	sort.Strings(f)
+	h := sha256.Sum256([]byte(strings.Join(f, " ")))
+	return fmt.Sprintf("%d:%s", len(f), hex.EncodeToString(h[:8]))
 }
 
 func (s c10Seg) key() string {
@@ -114,8 +131,8 @@ func (p *c10Proc) waitMarker(k int, timeout time.Duration) (seg string, ok bool)
 
 // c10Snapshot records and removes every regular file below dir (except the sub-directory tmp's
 // name, which is kept but emptied), so that the next line starts from an empty directory.
-func c10Snapshot(dir string) map[string]string {
-	var out map[string]string
+func c10Snapshot(dir string) (map[string]string, map[string]string) {
+	var out, bags map[string]string
 	filepath.Walk(dir, func(path string, info os.FileInfo, err error) error {
 		if err != nil || info.IsDir() {
 			return nil
@@ -126,13 +143,14 @@ func c10Snapshot(dir string) map[string]string {
 		rel, _ := filepath.Rel(dir, path)
 		rel = c10TmpNameRE.ReplaceAllString(rel, "$1<N>")
 		if out == nil {
-			out = map[string]string{}
+			out, bags = map[string]string{}, map[string]string{}
 		}
 		h := sha256.Sum256(b)
 		out[rel] = fmt.Sprintf("%d:%s", len(b), hex.EncodeToString(h[:8]))
+		bags[rel] = c10TokenBag(string(b))
 		return nil
 	})
-	return out
+	return out, bags
 }
 
 // c10RunSession runs `lines` in a fresh pprof process with working directory caseDir/<name>.
@@ -222,7 +240,8 @@ func c10RunSession(pprofBin, caseDir, name string, lines []string, wantOptions b
 			res.Err = fmt.Sprintf("marker protocol: timeout after line %d %q", i, l)
 			return res
 		}
-		seg := c10Seg{Text: c10Normalise(text, dir), Files: c10Snapshot(dir)}
+		seg := c10Seg{Text: c10Normalise(text, dir)}
+		seg.Files, seg.Bags = c10Snapshot(dir)
 		res.Segs = append(res.Segs, seg)
 		if !ok {
 			dead = true
